@@ -26,21 +26,35 @@ ALPHABET = (
     + [("to_synodic4",), ("to_synodic2", "q3"), ("to_cm",)]
     + [("lp_ham", d, f) for d in DEGS[:2] for f in FORMS[:2]]
     + [("lp_get_cm", d) for d in DEGS]
-    + [("lp_read", n) for n in ("position", "energy", "jacobi")]
+    + [("lp_read", n) for n in ("position", "energy", "jacobi", "eigenvalues", "linear_data", "normal_form_transform", "is_stable")]
     + [("bad_degree",), ("save_load",)]
     + [("map_compute", s, o) for s in range(len(SECTIONS)) for o in range(len(MAPOPTS))]
     + [("map_refetch",), ("map_points", 0)]
 )
 WEIGHTS = {"setdeg": 1.5, "cm_ham": 1.2, "read_degree": 0.8, "compute": 1.0, "to_synodic4": 0.6, "to_synodic2": 0.5, "to_cm": 0.5, "lp_ham": 1.0,
-           "lp_get_cm": 1.0, "lp_read": 0.3, "bad_degree": 0.4, "save_load": 0.2, "map_compute": 1.6, "map_refetch": 0.5, "map_points": 0.5}
+           "lp_get_cm": 1.0, "lp_read": 0.9, "bad_degree": 0.4, "save_load": 0.2, "map_compute": 1.6, "map_refetch": 0.5, "map_points": 0.5}
 REDUCED = [("setdeg", 3), ("setdeg", 5), ("cm_ham", 5), ("cm_ham", 4), ("read_degree",), ("compute", "center_manifold_real"), ("to_synodic4",),
            ("lp_ham", 4, "physical"), ("lp_get_cm", 4), ("map_compute", 0, 0), ("map_compute", 0, 1), ("map_refetch",)]
 MUTATORS = {"setdeg", "cm_ham", "bad_degree", "save_load"}
 
 
-def _lp(U, uni):
-    from hiten.system.libration.collinear import L1Point
-    return L1Point(U[uni]["em"])
+def _lp(U, uni, where=("em", 1)):
+    from hiten.system.libration.collinear import L1Point, L2Point
+    return {1: L1Point, 2: L2Point}[where[1]](U[uni][where[0]])
+
+
+def _norm(v):
+    """Comparable form of linear data / tuples of arrays."""
+    import dataclasses
+    if isinstance(v, np.ndarray):
+        return np.array(v)
+    if hasattr(v, "_asdict"):
+        return {k: _norm(x) for k, x in v._asdict().items()}
+    if dataclasses.is_dataclass(v) and not isinstance(v, type):
+        return {f.name: _norm(getattr(v, f.name)) for f in dataclasses.fields(v)}
+    if isinstance(v, (tuple, list)):
+        return [_norm(x) for x in v]
+    return v
 
 
 def _cm(lp, d):
@@ -109,23 +123,39 @@ def apply_cm(cm, lp, op):
     if k == "lp_get_cm":
         return int(lp.get_center_manifold(op[1]).degree)
     if k == "lp_read":
-        v = lp.jacobi if op[1] == "jacobi" else getattr(lp, op[1])
-        return np.array(v) if isinstance(v, np.ndarray) else v
+        return _norm(getattr(lp, op[1]))
     raise AssertionError(op)
 
 
 def run_history(ctx: RunCtx, U) -> None:
     ds, log = ctx.ds, ctx.log
-    lp = _lp(U, "sys_real")
+    from hiten import System
+    # fresh Systems per run: System-level memo entries (libration points) must not leak between runs
+    systems = {"em": System.from_bodies("earth", "moon")}
+    where0 = ("em", 1 + ds.choose(2, "lp[0].point"))
+    lps = [{"where": where0, "real": systems["em"].get_libration_point(where0[1])}]
+    second = ds.choose(4, "lp[1].kind", (0.5, 0.2, 0.15, 0.15))   # 0 none, 1 other point of the same system, 2 same point fetched again, 3 L1 of another system
+    if second == 1:
+        w = ("em", 3 - where0[1])
+        lps.append({"where": w, "real": systems["em"].get_libration_point(w[1])})
+    elif second == 2:
+        lps.append({"where": where0, "real": systems["em"].get_libration_point(where0[1])})
+    elif second == 3:
+        systems["se"] = System.from_bodies("sun", "earth")
+        lps.append({"where": ("se", 1), "real": systems["se"].get_libration_point(1)})
     n_cm = 1 + ds.choose(2, "cm.n_objects", (0.65, 0.35))
     cms = []
     for j in range(n_cm):
         d0 = DEGS[ds.choose(len(DEGS), f"cm[{j}].degree")]
         via_lp = bool(ds.choose(2, f"cm[{j}].via_lp.get_center_manifold"))
-        cm = lp.get_center_manifold(d0) if via_lp else _cm(lp, d0)
-        # model: the logical state of a centre manifold is its degree; held map: (degree at creation is irrelevant) last compute args
-        cms.append({"real": cm, "deg": d0, "via_lp": via_lp, "map": None, "reloaded": False})
-    log.add("objects", [(c["deg"], c["via_lp"]) for c in cms])
+        L = lps[ds.choose(len(lps), f"cm[{j}].lp")] if len(lps) > 1 else lps[0]
+        cm = L["real"].get_center_manifold(d0) if via_lp else _cm(L["real"], d0)
+        # model: the logical state of a centre manifold is (system, point, degree); held map: last compute args
+        cms.append({"real": cm, "deg": d0, "via_lp": via_lp, "map": None, "reloaded": False, "lp": L["real"], "where": L["where"]})
+        for other in cms[:-1]:
+            if other["real"] is cm:
+                cms[-1]["deg"] = other["deg"]
+    log.add("objects", [(c["deg"], c["via_lp"], c["where"]) for c in cms], [L["where"] for L in lps])
     hist: list = []
     weights = [0.0] + [WEIGHTS[a[0]] / sum(1 for b in ALPHABET if b[0] == a[0]) for a in ALPHABET]
     max_len = 12 if ctx.tier == "quick" else 25
@@ -184,8 +214,8 @@ def run_history(ctx: RunCtx, U) -> None:
             if k == "map_compute":
                 sec, oi = SECTIONS[op[1]], op[2]
                 r_out = attempt(lambda: map_rows(m["real"].compute(section_coord=sec, options=_mapopts(oi))))
-                t_out = twin_memo(("map", c["deg"], sec, oi), lambda: attempt(
-                    lambda: map_rows(_cm(_lp(U, "sys_twin"), c["deg"]).poincare_map(ENERGY).compute(section_coord=sec, options=_mapopts(oi)))))
+                t_out = twin_memo(("map", c["where"], c["deg"], sec, oi), lambda: attempt(
+                    lambda: map_rows(_cm(_lp(U, "sys_twin", c["where"]), c["deg"]).poincare_map(ENERGY).compute(section_coord=sec, options=_mapopts(oi)))))
                 log.add("op", entry, r_out.kind(), digest(r_out.value) if not r_out.failed else None)
                 if r_out.failed != t_out.failed:
                     raise Violation("C20/map/outcome-compute", f"map.compute({sec}, {MAPOPTS[oi]}): {r_out.kind()} ({r_out.exc}) on the long-lived map, "
@@ -205,16 +235,16 @@ def run_history(ctx: RunCtx, U) -> None:
                 if r_out.failed:
                     ctx.probe("map_points_unset")
                     continue
-                t_out = twin_memo(("map", c["deg"], sec, oi), lambda: attempt(
-                    lambda: map_rows(_cm(_lp(U, "sys_twin"), c["deg"]).poincare_map(ENERGY).compute(section_coord=sec, options=_mapopts(oi)))))
+                t_out = twin_memo(("map", c["where"], c["deg"], sec, oi), lambda: attempt(
+                    lambda: map_rows(_cm(_lp(U, "sys_twin", c["where"]), c["deg"]).poincare_map(ENERGY).compute(section_coord=sec, options=_mapopts(oi)))))
                 got = r_out.value
                 got = got[np.lexsort(tuple(got.T[::-1]))] if len(got) else got
                 exp = t_out.value["points"]
                 exp = exp[np.lexsort(tuple(exp.T[::-1]))] if len(exp) else exp
                 if (t_out.failed or not eq(got, exp)) and deg_then != c["deg"] and known_active("C20-K2-stored-map-section-survives-degree-change"):
                     # K2: exactly the section computed at the earlier degree
-                    old = twin_memo(("map", deg_then, sec, oi), lambda: attempt(
-                        lambda: map_rows(_cm(_lp(U, "sys_twin"), deg_then).poincare_map(ENERGY).compute(section_coord=sec, options=_mapopts(oi)))))
+                    old = twin_memo(("map", c["where"], deg_then, sec, oi), lambda: attempt(
+                        lambda: map_rows(_cm(_lp(U, "sys_twin", c["where"]), deg_then).poincare_map(ENERGY).compute(section_coord=sec, options=_mapopts(oi)))))
                     oldp = old.value["points"] if not old.failed else None
                     if oldp is not None and eq(got, oldp[np.lexsort(tuple(oldp.T[::-1]))] if len(oldp) else oldp):
                         ctx.note_known("C20-K2-stored-map-section-survives-degree-change")
@@ -230,13 +260,13 @@ def run_history(ctx: RunCtx, U) -> None:
         deg = c["deg"]
 
         def twin_apply():
-            tlp = _lp(U, "sys_twin")
+            tlp = _lp(U, "sys_twin", c["where"])
             tcm = _cm(tlp, deg)
             out = attempt(lambda: apply_cm(tcm, tlp, op))
             return out, int(tcm.degree)
 
-        t_out, t_deg = twin_memo(("cm-op", deg, op), twin_apply)
-        r_out = attempt(lambda: apply_cm(c["real"], lp, op))
+        t_out, t_deg = twin_memo(("cm-op", c["where"], deg, op), twin_apply)
+        r_out = attempt(lambda: apply_cm(c["real"], c["lp"], op))
         log.add("op", entry, r_out.kind(), digest(r_out.value) if not r_out.failed else None)
         if r_out.failed != t_out.failed:
             raise Violation(f"C20/cm/outcome-{k}", f"{op}: {r_out.kind()} ({r_out.exc}) on the long-lived object, {t_out.kind()} ({t_out.exc}) on a fresh "
@@ -260,9 +290,10 @@ def run_history(ctx: RunCtx, U) -> None:
                     other["deg"] = t_deg
         if k in MUTATORS or r_out.failed:
             mutated = True
-    ctx.sig_parts = [[(c["via_lp"],) for c in cms], hist]
-    ctx.sample = {"machine": "cm", "objects": [f"degree {d} via {'lp.get_center_manifold' if v else 'constructor'}" for d, v in
-                                                [(x["deg"], x["via_lp"]) for x in cms]], "history": [list(h) for h in hist]}
+    ctx.sig_parts = [[(c["via_lp"], c["where"]) for c in cms], [L["where"] for L in lps], hist]
+    ctx.sample = {"machine": "cm", "libration_points": [list(L["where"]) for L in lps],
+                  "objects": [f"{x['where'][0]} L{x['where'][1]} manifold via {'lp.get_center_manifold' if x['via_lp'] else 'constructor'}" for x in cms],
+                  "history": [list(h) for h in hist]}
     ctx.steps += len(hist)
 
 
@@ -276,8 +307,8 @@ def _hbrief(v):
 def enumeration(max_len: int):
     import itertools
     idx = [ALPHABET.index(op) + 1 for op in REDUCED]
-    # prefix: machine=cm (1), n_objects=1 (0), degree index 0 (=4), via_lp in {0,1}
+    # prefix: machine=cm (1), lp[0].point=L1 (0), no second libration point (0), n_objects=1 (0), degree index 0 (=4), via_lp in {0,1}
     for via in (0, 1):
         for L in range(1, max_len + 1):
             for seq in itertools.product(idx, repeat=L):
-                yield [1, 0, 0, via] + list(seq) + [0]
+                yield [1, 0, 0, 0, 0, via] + list(seq) + [0]
